@@ -430,6 +430,7 @@ Proof.
     destruct (N.leb_spec MAX_DEPTH depth) as [Hdp|Hdp].
     { destruct (N.ltb_spec depth MAX_DEPTH) as [|_]; [lia|]. cbn [andb]. now rewrite andb_false_r. }
     destruct (N.ltb_spec depth MAX_DEPTH) as [_|]; [|lia]. cbn [andb].
+    rewrite (wt_ty_of _ _ Hwx), ty_eqb_refl. cbn [negb].
     destruct (is_ok (validate_signature (to_str t))); cbn [andb]; [|reflexivity].
     specialize (IH (ex_intro _ t Hwx) (depth + 1) {| mbuf := write_signature (to_str t) (mbuf c); mfds := mfds c |}).
     cbn [mbuf] in IH. rewrite len_write_signature in IH. unfold cond_p in IH.
